@@ -359,7 +359,7 @@ def stats(cases, obs):
             if len(f) == 4:
                 out, inv, expected, clean = f
                 c["cases_with_invocation"] += any(x not in ("0", "-") for x in inv.split(","))
-                c["output_differs_from_input"] += out != "".join(t.split(":")[1].replace("-", "") for t in tl) or False
+                c["output_differs_from_input"] += out.replace("-", "") != "".join(t.split(":")[1].replace("-", "") for t in tl)
                 c["clean"] += clean == "1"
                 c["out_ne_documented"] += out != expected
                 c["clean_and_out_ne_documented"] += clean == "1" and out != expected
